@@ -9,6 +9,20 @@ CHECKS = {
    note="Trusted: the simulated IPFS/cache/keystore environment (mc/sim), go-ipfs-log's Values() as the definition of the log order, quiescence detection by goroutine status. Bounds: quick 2 writers depth 5 (3-op alphabet) / depth 4 (5-op alphabet), 3 writers depth 3; thorough deeper.",
    tech="explicit-state DFS by replay over the real implementation, visited-state pruning, reference-model oracle in every state"),
 }
+CHECKS.update({
+ "C01": dict(cat="model_checking", ref="5/C01",
+   text="Explicit-state search over write/merge histories of 2-3 writers for all three store types, with an observer replica that receives heads by manual sync, topic message and direct-channel payload (including arbitrary single entries and concurrent pairs in both list orders), restarts with load from the cache, and snapshot save/reload. In every state every replica is compared differentially (same entry set => identical ordered list, heads and view as the first path that reached that set) and against the (time, writer) reference order and its replay.",
+   note="Trusted: sim environment, quiescence detection; fetch completion order within one announcement is scheduler-chosen in the ungated units. Bounds in evidence (writers, depth, routes).",
+   tech="explicit-state DFS by replay over the real implementation with differential + reference-model oracle"),
+ "C07": dict(cat="model_checking", ref="5/C07",
+   text="Explicit-state search of the real document store: all sequences of Put/PutAll/PutBatch/Delete on overlapping mixed-case keys by 1-3 writers with interleaved merges; after every step Get (8 search keys x 4 option combinations) and Query (4 predicates) must equal the matching documents of the last-writer-wins replay in which a batch member counts as a put; Delete of an absent key must be refused.",
+   note="Trusted: sim environment, Values() as log order. Search keys with spaces and empty document keys excluded as in the property.",
+   tech="explicit-state DFS by replay over the real implementation, reference-model oracle in every state"),
+ "C08": dict(cat="model_checking", ref="5/C08",
+   text="Explicit-state search over Add/merge histories of 2-3 writers on the real event log store; in every state: listing equals log order, ancestors first, per-writer order, every range query (every bound kind x every entry x 7 amounts) equals the index window, Get by address; around every action the old listing must be a subsequence of the new one.",
+   note="Trusted: sim environment. Amount 0 accepted as any anchored window of length <= 1; bounds outside the log excluded.",
+   tech="explicit-state DFS by replay over the real implementation, exhaustive query cross product in every state"),
+})
 NOT_APPLICABLE = []
 ALL = ["C%02d" % i for i in range(1, 21)]
 
